@@ -4,7 +4,7 @@
    Vectors other than the samples (energies, num_occurrences, extra data, info) are
    compared exactly, field by field, by the worker. *)
 From Coq Require Import List ZArith NArith QArith Qcanon Bool Arith String.
-From Dimod Require Import Base.Util Model.Poly Model.Comb Model.Ser Model.Coo Model.InfoSer.
+From Dimod Require Import Base.Util Model.Poly Model.Comb Model.Ser Model.Coo Model.InfoSer Model.CooNum Model.CooLex.
 Import ListNotations.
 
 Inductive case :=
@@ -27,7 +27,10 @@ Inductive case :=
 (* the info field: before, the `info` entry of the document the reader consumed, after.
    Arrays are numbered by the worker (equal dtype, shape and values = equal number); the entries
    data / data_type / shape / use_bytes of an array document are the leaf TDoc of that number *)
-| KInfo (before emitted after : tree nat nat).
+| KInfo (before emitted after : tree nat nat)
+(* the lines of the COO text themselves, with the (u, v, bias in millionths) the worker split them into:
+   the character-level printer must give exactly that text and the character-level reader that triple *)
+| KCooLines (lines : list (string * N * N * Z)).
 
 Definition quad_eqb (a b : nat * nat * Qc) : bool :=
   Nat.eqb (fst (fst a)) (fst (fst b)) && Nat.eqb (snd (fst a)) (snd (fst b)) && Qc_eqb (snd a) (snd b).
@@ -132,4 +135,11 @@ Definition check (c : case) : bool :=
       && farr_eqb (jarr_val j) back
       && farr_eqb a back
   | KInfo before emitted after => info_ok before emitted after
+  | KCooLines lines =>
+      forallb (fun l => let '(s, u, v, m) := l in
+                 String.eqb (print_line u v m) s
+                 && match read_line None s with
+                    | Some (u', v', m') => N.eqb u u' && N.eqb v v' && Z.eqb m m'
+                    | None => false
+                    end) lines
   end.
